@@ -21,7 +21,7 @@ func (c04) ID() string { return "C04" }
 
 func (c04) Budget(tier string) int {
 	if tier == "thorough" {
-		return 400000
+		return 2000000
 	}
 	return 2048 + 48000
 }
